@@ -132,14 +132,6 @@ theorem full_slicing_history_indep : HistoryIndep α β fullArith sliceCrop :=
     history_indep fullArith C08.full_good sliceCrop sliceCrop_defining eval post c h w he earlier
       cl hfy hfx hn hb st fresh i hi
 
-/-- The full-frame pipeline shares no crop buffers between calls (allocated per call) and
-overwrites its frame buffer completely before using it (`log_scale(frame, out=frame_buf)`
-followed by `rfft2(frame_buf)`). -/
-theorem full_buffers_fresh :
-    Gen.full_crop_bufs_fresh = true ∧ Gen.full_log_arg = "frame" ∧ Gen.full_log_out = "frame_buf"
-      ∧ Gen.full_fft_input = "fft.rfft2(frame_buf)" := by
-  refine ⟨rfl, rfl, rfl, rfl⟩
-
 /-! ### The concrete composed pipelines: no locality hypothesis left
 
 `Model.fastEval` (log scaling → correlation map → evaluation kernels) and `Model.fullEval` are the
